@@ -41,9 +41,16 @@ def justified_value_error(t):
     L = layout()
     try:
         tn = real.tdesc(e.constraint.tpm_type)
-        v = int(e.value)
+        v = None if e.value is None else int(e.value)
     except Exception as x:
         return False, "error object unusable: %r" % x
+    if tn == "TPM_CC" and v is None:
+        # "unknown" literally: the preceding command ended before its command code was decoded
+        last_cmd = max((k for k, it in enumerate(t.items) if it[0] == "S" and it[1] == "" and it[2] == "Command"), default=None)
+        if last_cmd is None:
+            return False, "no command precedes the response"
+        seen = any(it[0] == "P" and it[1] == ".commandCode" for it in t.items[last_cmd:])
+        return (not seen), "the command code of the preceding command was decoded"
     if tn == "TPM_CC":
         return (v not in L.commands), "command code 0x%x is in the command table" % v
     if tn in L.types and L.types[tn]["kind"] == "union":
